@@ -13,8 +13,8 @@ from mc import alphabet as A, refmodel as R
 from mc.core import Out, inner
 
 ID = "C20"
-RULE = ("every schedule list over a 26-item alphabet (16 well-formed (kind,index) items with index in "
-        "{-1,0,1,2} + 10 malformed items) up to the length bound x every object-list configuration; a case "
+RULE = ("every schedule list over a 29-item alphabet (16 well-formed (kind,index) items with index in "
+        "{-1,0,1,2} + 13 malformed items incl. wrong-typed indices equal to valid ones) up to the length bound x every object-list configuration; a case "
         "is non-trivial when the schedule is non-empty; distinct = distinct (configuration, schedule) pairs")
 ASSUMPTIONS = ["schedule items outside the 26-item alphabet and object lists longer than 2 are not explored",
                "operands for execution are 1-qubit physical objects of the shared alphabet"]
@@ -23,7 +23,7 @@ BOUNDS = {"quick": "schedule length <= 3 on all 24 configurations, length 4 on 2
 KINDS = ("state", "povm", "gate", "mprocess")
 
 WELL = [(k, i) for k in KINDS for i in (-1, 0, 1, 2)]
-MAL = ["A1", "A3", "LIST", "K0", "KFOO", "KUP", "IFLT", "IBOOL", "INONE", "ISTR"]
+MAL = ["A1", "A3", "LIST", "K0", "KFOO", "KUP", "IFLT", "IBOOL", "INONE", "ISTR", "GFLT", "GBOOL", "MFLT"]
 NITEM = len(WELL) + len(MAL)
 
 
@@ -32,7 +32,9 @@ def item_of(code):
         return WELL[code]
     return {"A1": ("state",), "A3": ("state", 0, 0), "LIST": ["state", 0], "K0": (0, 0), "KFOO": ("foo", 0),
             "KUP": ("STATE", 0), "IFLT": ("state", 0.0), "IBOOL": ("state", True), "INONE": ("povm", None),
-            "ISTR": ("povm", "0")}[MAL[code - len(WELL)]]
+            "ISTR": ("povm", "0"),
+            # wrong-typed indices that compare EQUAL to a well-formed in-range item (1.0 == 1, True == 1, 0.0 == 0)
+            "GFLT": ("gate", 1.0), "GBOOL": ("gate", True), "MFLT": ("mprocess", 0.0)}[MAL[code - len(WELL)]]
 
 
 # ---- independent predicate ---------------------------------------------------------------------
@@ -304,6 +306,10 @@ SAMPLE_SCHEDULES = [
     [("state", 0), ("foo", 0)],
     [("state", 0), ("povm", 0), ("povm", 1)],
     [("state", 0), ["povm", 0]],
+    [("state", 0), ("gate", 1), ("povm", 0)],
+    [("state", 0), ("gate", 1.0), ("povm", 0)],
+    [("state", 1), ("mprocess", True)],
+    [("state", 0.0), ("povm", 0)],
 ]
 
 
@@ -482,7 +488,7 @@ def ex_tomography(p, seed):
 
     n = 0
     valid = []
-    for L in range(0, 4):
+    for L in range(0, 5):
         for codes in itertools.product(range(len(TOMO_ITEMS)), repeat=L):
             s = [TOMO_ITEMS[k] for k in codes]
             n += 1
